@@ -40,6 +40,7 @@ func (C19) Generate(r *core.Rand, tier string, idx int) *core.Scenario {
 	sc.Cfg["nsess"] = r.Range(2, 4)
 	sc.Cfg["users"] = r.Range(1, 2)
 	sc.Cfg["idlebulk"] = []int{0, 500}[r.Intn(2)]
+	sc.Cfg["flagrepl"] = r.Intn(2)
 	if r.P(1, 4) {
 		sc.Cfg["gated"] = 1
 	}
@@ -238,11 +239,19 @@ func (C19) Execute(sc *core.Scenario, keepLog bool) *core.Result {
 						return
 					}
 					text = fmt.Sprintf("FETCH 1:%d (UID FLAGS BODY.PEEK[HEADER])", n)
+					if sc.C("flagrepl") == 1 && a.Arg(2)%3 == 1 {
+						// a FETCH that sets \Seen on what it reads
+						text = fmt.Sprintf("FETCH 1:%d (FLAGS BODY[])", n)
+					}
 				case 2:
 					if n == 0 {
 						return
 					}
 					text = fmt.Sprintf("STORE %d +FLAGS (\\Seen custom)", 1+abs(a.Arg(1))%n)
+					if sc.C("flagrepl") == 1 && a.Arg(2)%3 != 0 {
+						// one flag list replacing the flags of several messages (in every session's view)
+						text = fmt.Sprintf("STORE 1:%d FLAGS (%s)", n, []string{"\\Flagged custom", "custom", "\\Answered"}[abs(a.Arg(2))%3])
+					}
 				case 3:
 					if n == 0 {
 						return
